@@ -1681,7 +1681,9 @@ func (f *Frame) bytesToString(sl string, st *State) string {
 	vc := f.vc
 	et := types.Typ[types.Uint8]
 	c := vc.comp(st, elemComp(et), vc.elemCompSort(et), et)
-	r := vc.freshConst("str", "Str")
+	// a function of the content; strings are shorter than 2^48 bytes (listed assumption)
+	r := vc.define("str", "Str", fmt.Sprintf("(bstr (select %s (arr %s)) (off %s) (len %s))", c, sl, sl, sl))
+	vc.assert(fmt.Sprintf("(<= (len %s) 281474976710656)", sl))
 	vc.assert(fmt.Sprintf("(= (slen %s) (len %s))", r, sl))
 	vc.assert(fmt.Sprintf("(forall ((i Int)) (! (=> (and (<= 0 i) (< i (len %s))) (= (sat %s i) (select (select %s (arr %s)) (+ (off %s) i)))) :pattern ((sat %s i))))", sl, r, c, sl, sl, r))
 	return r
